@@ -329,3 +329,92 @@ Print Assumptions C01_rejects_before_advance_turn_prefix_refuted.
 Print Assumptions C01_reward_conservation_step.
 Print Assumptions C01_script_done_stable.
 Print Assumptions chk_C01_model.
+
+(* ==== reward conservation over WHOLE HISTORIES (proofs: Proofs/RewardHist_proofs.v) ====
+   Scripted accumulate-and-reset simulation, any of the three managers ([k <> MTurnPrefix]),
+   ANY list of calls [cs] from the initial state: resets and steps, accepted, rejected or
+   failing, in or out of protocol, any number of episodes.  Since [cs] is arbitrary the
+   statements hold at every point of every history (take the prefix).  Vocabulary:
+     rew_sum a l        sum of the entries of agent a in the reward dictionary l
+     ep_delivered a rs 0   delivered to a by the outputs in rs since the last successful reset
+     ep_time rs 0       number of accepted steps in rs since the last successful reset
+     acc_at sc t a      what row t of the script accrues for a;  accrued sc a T = rows 1..T
+     pending s a        a's accumulator in the simulation state (accrued, not yet read)
+     resp_keys r        keys of the reward dictionary of response r (none unless an output)
+   No NoDup / range hypothesis on the nominations is needed for conservation itself. *)
+From Abm Require Import Proofs.RewardHist_proofs.
+Open Scope nat_scope.
+
+(* ---- at every point: simulation time = accepted steps of the episode; delivered + pending
+        = accrued since the last reset; the get_reward read log of the WHOLE history is the
+        concatenation of the reward keys of the outputs (no read for an agent that is not
+        in the output, one read per reported entry); the four dictionaries of every output
+        have the same keys ---- *)
+Theorem C01_reward_conservation_history : forall sc k, k <> MTurnPrefix -> forall cs a,
+  let r := run (script_sim sc) k (init (ss_init sc)) cs in
+  s_t (m_sim (snd r)) = ep_time (fst r) 0 /\
+  (ep_delivered a (fst r) 0 + pending (m_sim (snd r)) a = accrued sc a (ep_time (fst r) 0))%Z /\
+  s_reads (m_sim (snd r)) = concat (map resp_keys (fst r)) /\
+  Forall resp_wfo (fst r).
+Proof. exact conservation_history. Qed.
+
+(* ---- whenever a call (after any history cs) reports agent a, everything the script accrued
+        for a since the episode's reset up to this simulation time has been delivered, each
+        amount once, and nothing is left pending: in particular at a's final report ---- *)
+Theorem C01_reward_delivered_at_report : forall sc k, k <> MTurnPrefix -> forall cs c a o,
+  let r := run (script_sim sc) k (init (ss_init sc)) cs in
+  fst (do_call (script_sim sc) k (snd r) c) = ROut o -> In a (keys o) ->
+  ep_delivered a (fst r ++ [ROut o]) 0%Z = accrued sc a (ep_time (fst r ++ [ROut o]) 0) /\
+  pending (m_sim (snd (do_call (script_sim sc) k (snd r) c))) a = 0%Z.
+Proof. exact delivered_at_report. Qed.
+
+(* ---- the final report.  In-protocol history cs1 ++ c :: cs2 where call c reports a with
+        done = true and the responses to cs2 contain no successful reset (the same episode
+        goes on, however long): what the whole episode delivers to a is exactly what accrued
+        for a up to the time of that report; later accruals of the script for the finished
+        agent are never delivered.  Hypotheses: [wf_script] (dynamic order: at least one
+        agent, nominations duplicate-free and among the agents, as for the done protocol;
+        nothing for all-step and turn-based) and [in_protocol] ---- *)
+Theorem C01_reward_final_report : forall sc k, wf_script k sc = true -> forall cs1 c cs2 a o,
+  in_protocol (trace (script_sim sc) k (init (ss_init sc)) Fresh (cs1 ++ c :: cs2)) ->
+  let r1 := run (script_sim sc) k (init (ss_init sc)) cs1 in
+  let r := do_call (script_sim sc) k (snd r1) c in
+  let r2 := run (script_sim sc) k (snd r) cs2 in
+  fst r = ROut o -> In (a, true) (o_done o) ->
+  (forall obs, ~ In (RObs obs) (fst r2)) ->
+  fst (run (script_sim sc) k (init (ss_init sc)) (cs1 ++ c :: cs2)) = fst r1 ++ ROut o :: fst r2 /\
+  ep_delivered a (fst r1 ++ ROut o :: fst r2) 0%Z = accrued sc a (ep_time (fst r1 ++ [ROut o]) 0).
+Proof. exact final_report. Qed.
+
+(* ---- non-vacuity: two episodes of three agents under the turn-based manager; a1 finishes
+        at t = 1 (delivered 2 of the 222 the script accrues for it), a0 and a2 are cut by the
+        simulation-level finish at t = 3 (111 and 333, all delivered) ---- *)
+Example C01_reward_history_nonvacuous :
+  let SS := script_sim rh_sc in
+  let rs := fst (run SS MTurn (init (ss_init rh_sc)) rh_cs) in
+  wf_script MTurn rh_sc = true /\
+  in_protocol (trace SS MTurn (init (ss_init rh_sc)) Fresh rh_cs) /\
+  map resp_rewards rs
+  = [[]; [(1, 2%Z); (2, 3%Z)]; [(0, 11%Z)]; [(0, 100%Z); (2, 330%Z)];
+     []; [(1, 2%Z); (2, 3%Z)]; [(0, 11%Z)]; [(0, 100%Z); (2, 330%Z)]] /\
+  map resp_dones rs
+  = [[]; [(1, true); (2, false)]; [(0, false)]; [(0, false); (2, false)];
+     []; [(1, true); (2, false)]; [(0, false)]; [(0, false); (2, false)]] /\
+  (ep_delivered 1 (firstn 4 rs) 0%Z = 2%Z /\ accrued rh_sc 1 1 = 2%Z /\ accrued rh_sc 1 3 = 222%Z) /\
+  (ep_delivered 2 (firstn 4 rs) 0%Z = 333%Z /\ accrued rh_sc 2 3 = 333%Z) /\
+  (ep_delivered 0 (firstn 4 rs) 0%Z = 111%Z /\ accrued rh_sc 0 3 = 111%Z) /\
+  (ep_delivered 1 rs 0%Z = 2%Z /\ ep_delivered 2 rs 0%Z = 333%Z /\ ep_delivered 0 rs 0%Z = 111%Z /\
+   ep_time rs 0 = 3) /\
+  (exists o, fst (do_call SS MTurn (snd (run SS MTurn (init (ss_init rh_sc)) (rh_ep ++ [CReset])))
+                          (st1 0 1)) = ROut o /\ In (1, true) (o_done o) /\
+             forall obs, ~ In (RObs obs)
+               (fst (run SS MTurn
+                      (snd (do_call SS MTurn
+                              (snd (run SS MTurn (init (ss_init rh_sc)) (rh_ep ++ [CReset])))
+                              (st1 0 1)))
+                      [st1 2 1; st1 0 1]))).
+Proof. exact rh_nonvacuous. Qed.
+
+Print Assumptions C01_reward_conservation_history.
+Print Assumptions C01_reward_delivered_at_report.
+Print Assumptions C01_reward_final_report.
